@@ -17,6 +17,7 @@ import (
 	"strings"
 	"sync"
 	"sync/atomic"
+	"time"
 
 	"github.com/rigochain/rigo-go/ledger"
 	"github.com/rigochain/rigo-go/types/xerrors"
@@ -562,9 +563,10 @@ func init() { engine.Register("C18", func() engine.Check { return &c18{} }) }
 func (c *c18) ID() string { return "C18" }
 func (c *c18) Meta() engine.Meta {
 	return engine.Meta{
-		Category:  "model_checking",
-		LevelName: "0 = insertion-order determinism, 1 = unpruned DFS of all op sequences of the tier's length, 2 = BFS with state de-duplication to the tier's depth",
-		Technique: "explicit-state exploration of operation sequences on the real FinalityLedger vs a map model (unpruned DFS + BFS with state hashing)",
+		Category:    "model_checking",
+		CaseTimeout: 2 * time.Hour,
+		LevelName:   "0 = insertion-order determinism, 1 = unpruned DFS of all op sequences of the tier's length, 2 = BFS with state de-duplication to the tier's depth",
+		Technique:   "explicit-state exploration of operation sequences on the real FinalityLedger vs a map model (unpruned DFS + BFS with state hashing)",
 		Rule: "alphabet {get,set(2 values),del,cancelSet,cancelDel} x {consensus,mempool overlay} x 2 adjacent keys + commit + reopen (26 ops); " +
 			"every op's return value is compared with a map-with-two-overlays model, every commit/reopen re-reads the committed map and EVERY historical version (reads, iteration, scribbling on the view, latest+1 refused); " +
 			"each explored sequence ends with closing probes (all overlay reads, commit, reopen, full history). " +
